@@ -15,7 +15,7 @@ func checkC18(c *Ctx) {
 	p := c.P
 	c.Decided = "the scenario generator and shuffle are free of nondeterminism sources (only a seeded source; no map-order dependence in what they output); a scenario that has been built from the current odometer state is always returned (end-of-stream is signalled only on a path that built none); " +
 		"the announced remaining count is decremented exactly once per returned scenario, under the lock; the executor's verdict is unsafe exactly when some position has more than one distinct block hash among non-twin replicas, counting by block hash, and the returned commit count is the loop index; " +
-		"leaders are taken from configured (non-twin) node ids; node sets are sorted before JSON encoding."
+		"leaders are taken from configured (non-twin) node ids; node sets are sorted before JSON encoding. The odometer's carry loop covers every digit down to index 0, and the end of the enumeration is recorded exactly when digit 0 wraps."
 	c.Decided += " The shuffle callback is a pure swap; scenarios are decoded from JSON into fresh values only."
 	c.NotDec = "that the number of scenarios equals L^V and that no scenario repeats (combinatorics of the odometer and of the partition enumeration)."
 	c.Expect("C18.1", 3)
